@@ -389,3 +389,18 @@ Proof.
   - repeat constructor; unfold pos_ok, in_dom; cbn [fst snd length]; repeat split; try lia; try discriminate.
   - vm_compute. reflexivity.
 Qed.
+
+(* the hypotheses of C11_bytes_parse, C11_invariant and the pairing theorems are met by a new handler
+   and an empty terminal, for any well-formed call *)
+Example C11_invariant_nonvacuous :
+  Inv true (kitty_new false) store0 /\ cache_wf (kitty_new false) /\ ids_ok (k_ids (kitty_new false)) /\
+  op_wf (OpDraw ex_img ex_hash (1, 1)) /\ in_dom (1, 1) /\
+  parse_stream (fst (fst (step (kitty_new false) (OpErase ex_img ex_hash (Some (1, 1)))))) =
+    Some [del_item 900477109 (Some 65538)].
+Proof.
+  destruct C11_wf_nonvacuous as (W1 & _).
+  split; [apply inv_init|]. split; [intros id img hash H; discriminate|].
+  split; [constructor; cbn [kitty_new k_ids map length];
+          [intros h i H; discriminate|constructor|constructor|reflexivity]|].
+  split; [exact W1|]. split; [split; reflexivity|]. vm_compute. reflexivity.
+Qed.
